@@ -144,6 +144,10 @@ func (w *srvWorld) runScript(name string, ops []Op) {
 		case "2": // two messages in one write
 			b := append(reqBytes(op.IDs[0]), reqBytes(op.IDs[1])...)
 			_, _ = c.Write(b)
+		case "P": // a well-formed *response* message sent by the client: the server ignores it and keeps serving
+			resp := kmip.ResponseMessage{Header: kmip.ResponseHeader{ProtocolVersion: kmip.V1_4, BatchCount: 1},
+				BatchItem: []kmip.ResponseBatchItem{{Operation: kmip.OperationActivate, ResponsePayload: &payloads.ActivateResponsePayload{UniqueIdentifier: "stray"}}}}
+			_, _ = c.Write(ttlv.MarshalTTLV(&resp))
 		case "G":
 			_, _ = c.Write([]byte{0x42, 0x00, 0x78, 0xFF, 0, 0, 0, 8, 1, 2, 3, 4, 5, 6, 7, 8})
 		case "D": // correctly framed structure that is not a decodable request
@@ -282,6 +286,7 @@ func init() {
 	srv("srv-req-close", "one request, close without reading (disconnect while the response is produced/written)", SrvCfg{Conns: [][]Op{{W("ok1"), OpClose}}})
 	srv("srv-req-close-smallpipe", "one request into a 16-byte pipe nobody reads, then close (write loop blocked mid-response)", SrvCfg{PipeCap: 16, Conns: [][]Op{{W("ok1"), OpClose}}})
 	srv("srv-size-history", "three sequential requests whose sizes are chosen from 8 sizes each (all 512 size histories), then a second connection is served", SrvCfg{Conns: [][]Op{{{K: "Z", IDs: []string{"ok1"}}, {K: "Z", IDs: []string{"ok2"}}, {K: "Z", IDs: []string{"ok3"}}, OpClose}}})
+	srv("srv-stray-response", "the client sends a well-formed response message (ignored by the server), then a request that must be answered, then another stray response and a request", SrvCfg{Conns: [][]Op{{{K: "P"}, W("ok1"), R("ok1"), {K: "P"}, {K: "P"}, W("terr2"), R("terr2"), OpClose}}})
 	srv("srv-two-seq", "two sequential requests on one connection", SrvCfg{Conns: [][]Op{{W("ok1"), R("ok1"), W("terr2"), R("terr2"), OpClose}}})
 	srv("srv-pipelined", "two requests in one write, then read both", SrvCfg{Conns: [][]Op{{{K: "2", IDs: []string{"ok1", "perr2"}}, R("ok1", "perr2"), OpClose}}})
 	srv("srv-3pipelined-close", "three requests written back to back, then close without reading anything (requests still queued in the connection when it ends)", SrvCfg{Conns: [][]Op{{W("ok1"), W("ok2"), W("ok3"), OpClose}}})
